@@ -14,7 +14,7 @@ from ..sim.gen import D
 from .c16 import SIMPLE, TASKPOOL
 
 NB = 500
-FUNCS = ["quick", "quick", "gated", "gated", "boom", "not_async", "alt", "alt"]
+FUNCS = ["quick", "quick", "gated", "gated", "boom", "not_async", "alt", "alt", "decorated"]
 GROUPS = ["G", "H", "None", "True", "0", "@home", "@", "apply-gated-group-0", "map-quick-group-0", "start-group-0", "start-group-1", "nope", "g" * 300, "Ünï-çødé", "a=b", "x,y"]
 SHORT = {  # documented short options: first letter, upper case if taken (ControlParser.add_function_arg)
     "apply": {"args": "-a", "kwargs": "-k", "num": "-n", "group_name": "-g", "end_callback": "-e", "cancel_callback": "-c"},
@@ -34,7 +34,7 @@ def gen_value(d: D, cmd: str, pname: str) -> Any:
     if pname == "func":
         return ["path", "vt.ctl.hmod." + d.pick(FUNCS)]
     if pname in ("end_callback", "cancel_callback"):
-        return ["path", "vt.ctl.hmod." + d.pick(["ecb", "accb", "altcb"])]
+        return ["path", "vt.ctl.hmod." + d.pick(["ecb", "accb", "altcb", "deco_cb"])]
     if pname == "args":
         return ["lit", tuple(d.i(0, 9) for _ in range(d.i(0, 2)))]
     if pname == "kwargs":
